@@ -222,7 +222,7 @@ theorem St.w6_onWaitDone_wait (t : St) (w e w' : Nat) :
   dsimp only
   split
   · rename_i hg
-    refine Or.inr ⟨hg, ?_⟩
+    refine Or.inr ⟨by simp only [Bool.and_eq_true] at hg ⊢; exact hg.2, ?_⟩
     split
     · split
       · split <;> simp
@@ -291,7 +291,7 @@ theorem St.w6_onWaitEvent_wait (t : St) (w e w' : Nat) :
     · left; simp
     · right
       simp only [Bool.and_eq_true, Bool.not_eq_true', Bool.or_eq_true, beq_iff_eq, Option.isNone_iff_eq_none] at hg
-      exact ⟨hg.1, hg.2, St.w6_modWait_wait_congr _ _ (by simp) _ _ _⟩
+      exact ⟨hg.1.1, hg.2, St.w6_modWait_wait_congr _ _ (by simp) _ _ _⟩
   · exact Or.inl rfl
 
 theorem w6_run_only_waitEvent (c : Cfg) (w : Nat)
@@ -341,25 +341,42 @@ theorem w6_event_needs_on_event (c : Cfg) (w : Nat)
 theorem St.w6_onWaitTick_wait (t : St) (w w' : Nat) :
     (t.onWaitTick w).2.wait w' = t.wait w' ∨
       ((t.wait w).timeout > 0 ∧
-        (t.onWaitTick w).2.wait w' = (t.modWait w fun x => { x with timeout := x.timeout - 1 }).wait w') := by
+        (t.onWaitTick w).2.wait w' = (t.modWait w fun x => { x with timeout := x.timeout - 1 }).wait w') ∨
+      ((t.wait w).timeout = 0 ∧ (t.wait w).flag = false ∧ (t.wait w).timedOut = false ∧
+        (t.onWaitTick w).2.wait w' = (t.modWait w fun x => { x with timedOut := true }).wait w') := by
   unfold St.onWaitTick
   dsimp only
   split
-  · left
-    (repeat' split) <;> simp
-  · split
-    · rename_i h; exact Or.inr ⟨h, rfl⟩
-    · exact Or.inl rfl
+  · exact Or.inl rfl
+  · rename_i hg
+    simp only [Bool.or_eq_true, not_or, Bool.not_eq_true] at hg
+    split
+    · rename_i h0
+      right; right
+      refine ⟨by simpa using h0, hg.1, hg.2, ?_⟩
+      (repeat' split) <;> simp
+    · split
+      · rename_i h; exact Or.inr (Or.inl ⟨h, rfl⟩)
+      · exact Or.inl rfl
+
+/-- the guard of `_on_tick`: it acts only while neither `flag` nor `timedOut` is set -/
+theorem St.w6_onWaitTick_stale (t : St) (w : Nat) (h : (t.wait w).flag = true ∨ (t.wait w).timedOut = true) :
+    t.onWaitTick w = (.none, t) := by
+  unfold St.onWaitTick
+  dsimp only
+  rw [if_pos (by simpa using h)]
 
 theorem St.w6_onWaitTick_gen (t : St) (w g : Nat) :
     (t.onWaitTick w).2.gen g = t.gen g ∨
       ((t.wait w).timeout = 0 ∧ g = t.gens.length ∧ (t.onWaitTick w).2.gen g = .exc w false) := by
+  by_cases hst : (t.wait w).flag = true ∨ (t.wait w).timedOut = true
+  · left; rw [St.w6_onWaitTick_stale t w hst]
   by_cases h0 : (t.wait w).timeout = 0
   · have : (t.onWaitTick w).2.gen g = (t.addGen (.exc w false)).gen g := by
       unfold St.onWaitTick
       dsimp only
-      rw [if_pos (by simp [h0])]
-      (repeat' split) <;> simp
+      rw [if_neg (by simpa using hst), if_pos (by simp [h0])]
+      (repeat' split) <;> simp <;> (rw [St.w6_addGen_gen, St.w6_addGen_gen]; rfl)
     rw [this, St.w6_addGen_gen]
     by_cases hg : g = t.gens.length
     · right; simp [hg, h0]
@@ -367,7 +384,7 @@ theorem St.w6_onWaitTick_gen (t : St) (w g : Nat) :
   · left
     unfold St.onWaitTick
     dsimp only
-    rw [if_neg (by simpa using h0)]
+    rw [if_neg (by simpa using hst), if_neg (by simpa using h0)]
     split <;> rfl
 
 theorem w6_timeout_only_waitTick (c : Cfg) (w : Nat) (hw : w < c.st.waits.length)
@@ -394,8 +411,15 @@ theorem w6_timeout_counts_down (c : Cfg) (w : Nat) (hw : w < c.st.waits.length)
       (c.st.wait w).timeout > 0 ∧ ((step c).st.wait w).timeout = (c.st.wait w).timeout - 1 := by
   obtain ⟨r, h, e, k, w0, hs, hxn, hk⟩ := w6_timeout_only_waitTick c w hw hne
   rw [w6_step_invoke c r h e k hs hxn, Cfg.w6_invoke_waitTick c k r h e w0 hk] at hne ⊢
-  rcases St.w6_onWaitTick_wait (c.w6_invokeSt h e) w0 w with h1 | ⟨h1, h3⟩
+  rcases St.w6_onWaitTick_wait (c.w6_invokeSt h e) w0 w with h1 | ⟨h1, h3⟩ | ⟨_, _, _, h3⟩
   · rw [h1, Cfg.w6_invokeSt_wait] at hne; exact absurd rfl hne
+  rotate_left
+  · exfalso
+    rw [h3] at hne
+    have := St.w6_modWait_wait_pres (c.w6_invokeSt h e) (fun x => x.timeout) w0
+      (fun x => { x with timedOut := true }) (fun _ => rfl) w
+    rw [this, Cfg.w6_invokeSt_wait] at hne
+    exact hne rfl
   · rw [h3] at hne ⊢
     rw [Cfg.w6_invokeSt_wait] at h1
     by_cases hww : w = w0
